@@ -147,10 +147,12 @@ Definition int_combinations (n k : nat) (bnds : list nat) : list (list nat) :=
   let '(value, bounds) := ic_init n k bnds in
   ic_iter (S (fold_right Nat.mul 1%nat (map S bnds))) k bounds value.
 
-(* ------------------------------------------------------------------ Ordered_set_partition_iterator(n, k)
-   modelled by the set it enumerates (all ordered partitions of {0..n-1} into k non-empty increasing blocks);
-   the enumeration order of Set_partition_iterator x Permutation_iterator is not modelled (the API leaves the
-   order of cofaces free; outputs are compared as sorted lists). *)
+(* ------------------------------------------------------------------ Ordered_set_partition_iterator(n, k), set level:
+   all ordered partitions of {0..n-1} into k non-empty increasing blocks.  This is the enumeration the set-level
+   [cofaces] below (and the inductive theorems) use; the state machines Set_partition_iterator x Permutation_iterator
+   and the odometer of Coface_iterator::increment are transcribed at the end of this file ([osp_iter], [cofaces_iter]),
+   compared with the C++ in enumeration order, and proved to enumerate the same sets for small sizes (C20_Proofs.v,
+   C20_Iter.v). *)
 Fixpoint labelings (n k : nat) : list (list nat) :=
   match n with
   | O => [[]]
